@@ -532,6 +532,40 @@ template <class T> struct TR
             if (x.room() != n || acc::bufsize(x) != n + 1) o.fail("resize of a moved-from ring: room " + S(x.room()));
             o.tag("move");
         }
+        else if (op == "writebig" || op == "readbig")
+        { // round 3b: a request of 2^32 + k elements (the parameter is a size_t).  No ring can take / deliver more
+          // than size - 1 elements, so a source / destination of size + 1 elements is all such a call may touch.
+            if constexpr (is_char)
+            {
+                size_t k = strtoul(w[1].c_str(), 0, 10), req = ((size_t)1 << 32) + k;
+                if (op == "writebig")
+                {
+                    bytes d = unhex(w[2]);
+                    if (d.size() < (size_t)size + 1) { o.result = "bad-op"; return; }
+                    exact_buf src(d);
+                    size_t acc = (size_t)(size - 1) - q.size();
+                    size_t rc = x.write((const char *)src.p, req);
+                    ret = S(rc);
+                    if (rc != acc) o.fail("write of 2^32+" + S(k) + " elements returned " + S(rc) + ", room was " + S(acc));
+                    for (size_t i = 0; i < acc; i++) q.push_back((char)d[i]);
+                }
+                else
+                {
+                    exact_buf dst((size_t)size + 1);
+                    size_t n = q.size();
+                    size_t rc = x.read((char *)dst.p, req);
+                    ret = S(rc) + " " + hex(dst.p, std::min(rc, (size_t)size + 1));
+                    if (rc != n) o.fail("read of 2^32+" + S(k) + " elements returned " + S(rc) + " with " + S(n) + " stored");
+                    for (size_t i = 0; i < n; i++)
+                    {
+                        if (i < rc && (char)dst.p[i] != q.front()) o.fail("read: byte " + S(i) + " altered");
+                        q.pop_front();
+                    }
+                }
+                o.tag("size_t-request");
+            }
+            else { o.result = "bad-op"; return; }
+        }
         else if (op == "write" || op == "read")
         {
             if constexpr (is_char)
